@@ -337,13 +337,71 @@ def r5(ctx):
     ctx.ob(fi.qual, "filter-keeps-order", ok, fi.loc(), "singleton filtering keeps the sorted order (list comprehension over the sorted list)" if ok else "the singleton filter no longer preserves the sorted order")
 
 
+def r6(ctx):
+    """The SNV count: a variant is an SNV only if every allele is a single base."""
+    fis = [f for q, f in sorted(ctx.prog.functions.items()) if q.startswith("whatshap.vcf.") and q.endswith(".is_snv")]
+    fis = [f for f in fis if not all(isinstance(b, ast.Pass) or (isinstance(b, ast.Expr) and isinstance(b.value, ast.Constant)) for b in f.node.body)]
+    ctx.require(len(fis) >= 1, "no is_snv implementation in whatshap.vcf")
+    for fi in fis:
+        rets = [n for n in walk_function(fi.node) if isinstance(n, ast.Return) and n.value is not None]
+        if len(rets) != 1:
+            ctx.ob(fi.qual, "snv-means-single-base-alleles", None, fi.loc(), "is_snv has %d return statements" % len(rets))
+            continue
+        e = util.expand_single_defs(fi.node, rets[0].value) if hasattr(util, "expand_single_defs") else rets[0].value
+        conj = []
+
+        def flat(x):
+            if isinstance(x, ast.BoolOp) and isinstance(x.op, ast.And):
+                for v in x.values:
+                    flat(v)
+            else:
+                conj.append(x)
+
+        flat(e)
+        parent = {}
+
+        def find(a):
+            parent.setdefault(a, a)
+            while parent[a] != a:
+                a = parent[a]
+            return a
+
+        allone = set()  # sequences every element of which has length 1
+        for c in conj:
+            if isinstance(c, ast.Compare) and all(isinstance(o, ast.Eq) for o in c.ops):
+                terms = [u(c.left)] + [u(x) for x in c.comparators]
+                for a, b in zip(terms, terms[1:]):
+                    parent[find(a)] = find(b)
+            elif isinstance(c, ast.Call) and u(c.func) == "all" and len(c.args) == 1 and isinstance(c.args[0], (ast.GeneratorExp, ast.ListComp)) and len(c.args[0].generators) == 1 and not c.args[0].generators[0].ifs:
+                g = c.args[0].generators[0]
+                el = c.args[0].elt
+                if isinstance(el, ast.Compare) and len(el.ops) == 1 and isinstance(el.ops[0], ast.Eq) and {u(el.left), u(el.comparators[0])} == {"len(%s)" % u(g.target), "1"}:
+                    allone.add(u(g.iter))
+        unknown = [c for c in conj if not (isinstance(c, ast.Compare) and all(isinstance(o, (ast.Eq, ast.NotEq)) for o in c.ops) and not any(isinstance(x, ast.Call) and u(x.func) != "len" for x in ast.walk(c))) and not (isinstance(c, ast.Call) and u(c.func) in ("all", "any") and any(("len(%s)" % u(g_.target)) in u(c) or u(c.func) == "any" for g_ in getattr(c.args[0], "generators", [])[:1]))]
+        missing = []
+        for attr in ("reference_allele", "alternative_allele", "alternative_alleles"):
+            if not any(isinstance(x, ast.Attribute) and x.attr == attr for x in ast.walk(fi.node)) and attr != "reference_allele":
+                continue
+            t = "self.%s" % attr
+            single = find("len(%s)" % t) == find("1")
+            if attr == "alternative_alleles":
+                single = t in allone
+            if not single:
+                missing.append(attr)
+        ok = not missing
+        if missing and unknown:
+            ok = None  # a condition this rule cannot read may be what bounds the lengths
+        ctx.ob(fi.qual, "snv-means-single-base-alleles", ok, fi.loc(rets[0]), "is_snv requires length 1 of the reference and of every alternative allele" if ok else "is_snv does not require length 1 of %s: a multi-base substitution is counted as SNV by `whatshap stats` (and kept by --only-snvs)" % ", ".join(missing))
+
+
 RULES = [
     ("C12.R1", "none-before-hom: missing genotype excluded before the hom/het split", r1),
     ("C12.R2", "one bucket per heterozygous call; phased/singleton partition; fields", r2),
     ("C12.R3", "aggregation exhaustiveness of PhasingStats.__iadd__ and total", r3),
     ("C12.R4", "block list: one line per phase set with 1-based extent and size", r4),
     ("C12.R5", "non-overlapping split: the sorted worklist is re-sorted after insertions", r5),
+    ("C12.R6", "SNV classification requires single-base alleles", r6),
 ]
 # instance floors: about 60% of the instances confirmed by hand on the reference tree -- a rule that suddenly matches far fewer
 # sites fails the run (exit 2); a clean-up that merges two sites into one does not
-FLOORS = {"C12.R1": 2, "C12.R2": 8, "C12.R3": 7, "C12.R4": 4, "C12.R5": 1}
+FLOORS = {"C12.R1": 2, "C12.R2": 8, "C12.R3": 7, "C12.R4": 4, "C12.R5": 1, "C12.R6": 2}
